@@ -181,13 +181,18 @@ void ScriptedBackend::AddMIPStart(ArrayRef<double> x0_unpres, ArrayRef<int> spar
 }
 
 void ScriptedBackend::VarPriorities(ArrayRef<int> priority) {
-  if (auto f = lp()->rec) { fprintf(f, "{\"e\":\"VarPriorities\",\"v\":%s}\n", verif::jints(priority).c_str()); fflush(f); }
+  auto mv = GetValuePresolver().PresolveGenericInt({priority});   // as real drivers do
+  if (auto f = lp()->rec) {
+    fprintf(f, "{\"e\":\"VarPriorities\",\"in\":%s,\"vars\":%s}\n", verif::jints(priority).c_str(), verif::jints(mv.GetVarValues()()).c_str());
+    fflush(f);
+  }
 }
 
 IIS ScriptedBackend::GetIIS() {
   if (!script_.has_iis) return {};
   std::map<int, std::vector<int>> cm = script_.coniis;
   auto mv = GetValuePresolver().PostsolveIIS({script_.variis, pre::ValueMapInt{cm}});
+  if (auto f = lp()->rec) { fprintf(f, "{\"e\":\"GetIIS\",\"vars\":%s,\"cons\":%s}\n", verif::jints(mv.GetVarValues()()).c_str(), verif::jints(mv.GetConValues()()).c_str()); fflush(f); }
   return {mv.GetVarValues()(), mv.GetConValues()()};
 }
 
